@@ -758,7 +758,7 @@ Definition enum_make (c : cmd) (st : estate) (v : pview) (T : string) : mres eda
                 e_valueof := fold_left (fun m e => upsert (fst e) (if Z.ltb (snd e) 0 then "(" ++ dec (snd e) ++ ")" else dec (snd e)) m) vals [];
                 e_strof := fold_left (fun m e => upsert (fst e) (trim_prefix T (fst e)) m) vals [] |} in
   match vals with
-  | [] => MSkip st1
+  | [] => if specified c then MFatal else MSkip st1      (* an explicitly named type without constants is an error *)
   | _ => MOk d false st1
   end.
 
@@ -837,17 +837,24 @@ Definition sig_of (m : rmethod) : string :=
   (if rm_result m =? "" then "" else (if rm_result_ptr m then "*" else "") ++ rm_result m ++ ", ") ++ "*http.Response, error)".
 
 (* one parameter: paramhandler.go handleExpr.  acc = (query, ptr, alias, body, dict, ctx); None = Fatal *)
-Definition rest_param (h : hfile) (vb : string) (pathparams : list string) (p : rparam)
+Definition rest_param (v : pview) (h : hfile) (vb : string) (pathparams : list string) (p : rparam)
   (acc : list string * list string * list (string * string) * string * string * string)
   : option (list string * list string * list (string * string) * string * string * string) :=
   let '(q, ptr, al, body, dict, ctx) := acc in
   let ptr1 := if rp_ptr p then sadd (rp_name p) ptr else ptr in
   match rp_kind p with
   | RCtx => Some (q, ptr1, al, body, dict, rp_name p)
-  | RMap => Some (q, ptr1, al, body, if (vb =? "GET") || (vb =? "DELETE") then rp_name p else dict, ctx)
+  | RMap => if (vb =? "GET") || (vb =? "DELETE")
+            then (if negb (dict =? "") then None        (* ambiguous query map binding *)
+                  else Some (q, ptr1, al, body, rp_name p, ctx))
+            else Some (q, ptr1, al, body, dict, ctx)
   | RScalar => Some (if smem (rp_name p) pathparams then q else (q +++ [rp_name p]), ptr1, al, body, dict, ctx)
   | RStruct tn =>
-      match struct_in_file h tn with
+      (* paramhandler.go isPkgStructType: a struct declared in the same file or in any other file of the package *)
+      match match struct_in_file h tn with
+            | Some s => Some s
+            | None => match find_struct v tn with Some (_, _, s) => Some s | None => None end
+            end with
       | None => Some (if smem (rp_name p) pathparams then q else (q +++ [rp_name p]), ptr1, al, body, dict, ctx)
       | Some s =>
           if negb (body =? "") then None          (* ambiguous body binding *)
@@ -871,14 +878,16 @@ Definition rest_param (h : hfile) (vb : string) (pathparams : list string) (p : 
   end.
 
 (* cook.go cookClient for one method *)
-Definition rest_method (o : oracle) (h : hfile) (m : rmethod) : option rmdata :=
+Definition rest_method (o : oracle) (v : pview) (h : hfile) (m : rmethod) : option rmdata :=
   let asmap := fold_left (fun mp e => upsert (fst e) (snd e) mp) (rm_alias m) [] in       (* parseKV *)
   let revmap := fold_left (fun mp e => upsert (snd e) (fst e) mp) (o _ asmap) [] in       (* for k, v := range asMap { reversMap[v] = k } *)
   let real := map (fun n => match alookup n revmap with Some r => r | None => n end) (rm_pparams m) in
-  match fold_left (fun a p => match a with Some acc => rest_param h (rm_verb m) real p acc | None => None end)
+  match fold_left (fun a p => match a with Some acc => rest_param v h (rm_verb m) real p acc | None => None end)
                   (rm_params m) (Some ([], [], asmap, "", "", "")) with
   | None => None
   | Some (q, ptr, al, body, dict, ctx) =>
+      if body_verb (rm_verb m) && (body =? "") then None       (* needs a struct parameter as request body *)
+      else
       Some {| md_name := rm_name m; md_sig := sig_of m; md_verb := rm_verb m; md_path := rm_path m; md_alias := al;
               md_pathparams := real; md_query := q; md_ptr := ptr; md_body := body; md_dict := dict; md_ctx := ctx;
               md_result := rm_result m; md_resptr := rm_result_ptr m;
@@ -895,7 +904,7 @@ Definition rest_make (o : oracle) (c : cmd) (st : rstate) (v : pview) (T : strin
       match fold_left (fun a m => match a with
                                   | None => None
                                   | Some ms => if rm_hasdoc m
-                                               then match rest_method o h m with Some x => Some (ms +++ [x]) | None => None end
+                                               then match rest_method o v h m with Some x => Some (ms +++ [x]) | None => None end
                                                else Some ms
                                   end) (ri_methods r) (Some []) with
       | None => MFatal
@@ -1447,7 +1456,10 @@ Section Loop.
             let fname := file_name c (all_in_one_file c v) fmap T in
             (* if isStale && i < len(TypeNames)-1 { g.overlay[filename] = src; g.LoadPackage() } *)
             let overlay' := if stale && match rest with [] => false | _ => true end then upsert fname src overlay else overlay in
-            if separate c then gen_loop rest fmap st' overlay' (upsert fname src srcmap) srclist
+            if separate c then
+              (* if _, dup := srcMap[filename]; dup { logx.Fatalf("more than one type is written to ...") } *)
+              if ahas fname srcmap then None
+              else gen_loop rest fmap st' overlay' (upsert fname src srcmap) srclist
             else gen_loop rest fmap st' overlay' srcmap (srclist +++ [src])
         end
     end.
